@@ -449,9 +449,9 @@ pub fn execute(p: &Program, opts: &ExecOpts) -> Result<ExecResult, Failure> {
         }
     }
     let max_time = res.time.iter().copied().max().unwrap_or(p.start_ns as u128);
-    let ballast_first_time = max_time + 1_000_000_000_000;
+    let ballast_first_time = max_time + 50_000 * p.params.t_ns as u128;
     for b in 0..opts.ballast {
-        rt.add_event(Ev::Ballast(b as u32), st(ballast_first_time + b as u128 * 1_000));
+        rt.add_event(Ev::Ballast(b as u32), st(ballast_first_time + b as u128 * p.params.t_ns as u128));
     }
     let mut steps_out = Vec::new();
     let result = match &opts.steps {
@@ -539,9 +539,9 @@ pub fn model(p: &Program, ballast: usize, calls: &[BuilderCall], steps: Option<&
         sim.schedule(i as u32, res.time[i]);
     }
     let max_time = res.time.iter().copied().max().unwrap_or(p.start_ns as u128);
-    let ballast_first_time = max_time + 1_000_000_000_000;
+    let ballast_first_time = max_time + 50_000 * p.params.t_ns as u128;
     for b in 0..ballast {
-        sim.schedule(BALLAST_BASE + b as u32, ballast_first_time + b as u128 * 1_000);
+        sim.schedule(BALLAST_BASE + b as u32, ballast_first_time + b as u128 * p.params.t_ns as u128);
     }
     let base_limit: Option<Limit> = calls
         .iter()
